@@ -2008,7 +2008,17 @@ impl Account for LocalAccount {
 
     async fn forget_folder(&mut self, folder_id: &VaultId) -> Result<bool> {
         self.ensure_authenticated()?;
-        Ok(self.storage.remove_folder(folder_id).await?)
+        let removed = self.storage.remove_folder(folder_id).await?;
+
+        // Clean the search index
+        #[cfg(feature = "search")]
+        if removed {
+            if let Some(index) = self.storage.search_index() {
+                index.remove_folder(folder_id).await;
+            }
+        }
+
+        Ok(removed)
     }
 
     #[cfg(feature = "contacts")]
